@@ -12,7 +12,7 @@ LEVEL_NOTE = ("the model fixes the atomic steps at the resolver's lock acquisiti
 DESIGN_REF = "DESIGN.md §9 C13, Appendix G, §12.C13"
 COQ_TARGETS = ["Properties/C13", "Pins/C13"]
 THEOREMS = [("PdfV.Properties.C13", n) for n in
-            ["C13_per_thread_chain", "C13_completion", "C13_terminates", "C13_sequential_answer", "C13_answers_alone", "C13_full_refuted",
+            ["C13_per_thread_chain", "C13_completion", "C13_terminates", "C13_sequential_answer", "C13_answers_alone", "C13_cell_once", "C13_full_refuted",
              "C13_refuted_shared_chain", "C13_refuted_pop_assert", "C13_refuted_abort", "C13_cyclic_deadlock", "C13_chain_table",
              "C13_serving_cached_errors_refuted"]]
 ANCHORS = ["file.rs:StorageResolver"]
@@ -21,17 +21,22 @@ TRUSTED_BASE = ["coqc 8.16.1 kernel (vm_compute for witnesses and the table lemm
                 "gen/extract_cache.py (reads whether StorageResolver.chain is keyed by ThreadId)",
                 "Extraction + ExtrOcamlBasic, ocamlfind ocamlopt 4.13.1, coq/driver/main.ml",
                 "pdf/src/verif_hooks.rs + the four cfg-guarded yield points in StorageResolver::get (hook: commit)",
+                "harness pdfh modes/cache.rs: blocked-in-the-kernel detection of the turnstile scheduler (/proc/self/task/<tid>/stat) for threads waiting inside once_cell, Holder test type (Lazy<Node<ty>> cells)",
                 "harness pdfh modes/cache.rs: turnstile scheduler, TurnCache (instrumented implementation of the public Cache trait mirroring globalcache-0.2.4 SyncCache::get), Node<0..2> test types",
                 "tools/vplib, tools/oracle/cachedocs.py + pdfwriter.py"]
 ASSUMPTIONS = ["atomicity: the code between two yield points of one thread is one step (holds under the turnstile scheduler; for free-running threads it is the claim that the two mutexes make these sections atomic)",
                "the instrumented cache follows SyncCache::get's protocol (read from globalcache-0.2.4/src/sync.rs); the real SyncCache is exercised only by the stress mode",
                "C13_per_thread_chain premise `acyclic1`: eager nested loads follow a rank; for cyclic documents the cache protocol deadlocks (C13-b)",
-               "the readers' object types are the harness types Node<0..2> (library types are exercised sequentially by C12)"]
+               "the readers' object types are the harness types Node<0..2> (library types are exercised sequentially by C12)",
+               "once-cell protocol of Lazy::load as read from once_cell 1.x sync::OnceCell::get_or_try_init (one initialiser at a time, waiters block, a failed initialiser leaves the cell empty); lazily loaded references are the cells of the harness type Holder, shared by all threads of a schedule"]
 RULE = ("documents: Node documents (nested eager loads, failing loads, free references; acyclic and cyclic); 2 threads x 1 call: every interleaving of the "
         "model's steps (exhaustive), 2 x 2 and 3 x k: sampled schedules; split documents (for every error kind - missing object, wrong type, parse error, "
         "recursion, ... - a reference that fails with it as one type and loads as another): the same reference loaded as a failing and as a succeeding type "
         "by two threads (interleavings of the model's steps, exhaustive when few) and within one thread (sequential histories), directly and through parents "
-        "that load it as several types; each under {shared resolver, one resolver each} x {cache on, off}; expected answers = "
+        "that load it as several types; lazily loaded references (Lazy::load, a once-cell shared by the threads through one holder value): 2-4 threads "
+        "loading the SAME cell - scripted arrival orders (the initialiser parked inside the cell's load while the others arrive), exhaustive / sampled "
+        "interleavings, cells whose load fails, mixed with typed gets; real-thread stress hammering one cell; "
+        "each under {shared resolver, one resolver each} x {cache on, off}; expected answers = "
         "each call alone (python oracle from the file's construction), no panic, no poison, no deadlock; plus unscheduled real-thread runs with the real "
         "SyncCache; non-trivial = at least two threads with a call each; distinct by (cfg, file, programs, schedule)")
 CASE_TIMEOUT = 30.0
@@ -93,15 +98,19 @@ def mk_case(nd, data, progs, sched, shared, cache, tags, typed=False):
     cf = ("1" if shared else "0") + PER_THREAD + ("1" if cache else "0")
     if typed:
         pf = "\n".join(" ".join("%d %d" % c for c in p) for p in progs).encode()
-        expect = ok(*[" ".join("%s%d" % nd.alone_get(ty, r) for (ty, r) in p).encode() for p in progs])
+        expect = ok(*[" ".join("%s%d" % nd.alone_item(ty, r) for (ty, r) in p).encode() for p in progs])
     else:
         pf = "\n".join(" ".join(str(r) for r in p) for p in progs).encode()
         expect = ok(*[" ".join("%s%d" % nd.alone_get(0, r) for r in p).encode() for p in progs])
     sf = " ".join(str(t) for t in sched).encode()
     tags = list(tags) + ["shared" if shared else "separate", "cache" if cache else "nocache",
                          "cyclic" if not nd.acyclic() else "acyclic", "threads:%d" % len(progs)]
-    return Case("tschedule" if typed else "schedule", [cf.encode(), data, pf, sf], mfields=[cf.encode(), nd.rows(), pf, sf],
-                expect=expect, tags=tags)
+    fields, mfields = [cf.encode(), data, pf, sf], [cf.encode(), nd.rows(), pf, sf]
+    if typed and nd.holder:
+        # the holder of the lazy cells (implementation: its object number; model: its entries)
+        fields.append(str(nd.holder).encode())
+        mfields.append(nd.cells_row())
+    return Case("tschedule" if typed else "schedule", fields, mfields=mfields, expect=expect, tags=tags)
 
 
 def typed_cases(rng, nd, data, quick):
@@ -155,6 +164,51 @@ def typed_cases(rng, nd, data, quick):
         yield mk_case(nd, data, progs, s, rng.random() < 0.6, rng.random() < 0.85, ["sampled", "typed"], typed=True)
 
 
+def lazy_cases(rng, nd, data, quick):
+    """threads that load the SAME lazy cell of one shared holder (Lazy::load: a once-cell) at the same time: every
+    order of arrival, the initialiser parked inside the cell's load while the others arrive, cells whose load fails
+    (the cell stays empty, the next thread initialises), mixed with typed gets of the same reference"""
+    L = nd.LAZY
+    n_cells = len(nd.cells)
+    for ci in range(n_cells):
+        (cty, cr) = nd.cells[ci]
+        n = steps_bound(nd, cr, True)
+        for shared in (True, False):
+            for cache in (True, False):
+                k = (12 if quick else 120) if cache else (6 if quick else 40)
+                progs2 = [[(L, ci)], [(L, ci)]]
+                scripted = [[0] * 60 + [1] * 60, [1] * 60 + [0] * 60, [0, 0, 1, 1, 1] + [0] * 60 + [1] * 60,
+                            [1, 1, 0, 0, 0] + [1] * 60 + [0] * 60, [0, 1] * 40, [0, 0, 0, 1, 0, 1, 1, 0] * 8]
+                for s in scripted:
+                    yield mk_case(nd, data, progs2, s, shared, cache, ["scripted", "typed", "lazy"], typed=True)
+                if n <= 4:
+                    allsch = list(interleavings([n, n]))
+                    if len(allsch) > k * 4:
+                        allsch = rng.sample(allsch, k * 4)
+                    for s in allsch:
+                        yield mk_case(nd, data, progs2, s, shared, cache, ["2x1-exhaustive", "typed", "lazy"], typed=True)
+                for _ in range(k):
+                    nt = rng.choice([2, 2, 3, 4])
+                    progs = []
+                    for _ in range(nt):
+                        p = [(L, ci)]
+                        if rng.random() < 0.5:
+                            p.insert(rng.randrange(2), rng.choice([(cty, cr), (rng.randrange(3), cr), (L, rng.randrange(n_cells))]))
+                        if rng.random() < 0.4:
+                            p.append((L, ci))
+                        progs.append(p)
+                    s = [rng.randrange(nt) for _ in range(rng.randint(0, 60))]
+                    yield mk_case(nd, data, progs, s, shared, cache, ["sampled", "typed", "lazy"], typed=True)
+    # many cells, many threads
+    for _ in range(40 if quick else 800):
+        nt = rng.choice([2, 3, 4])
+        few = rng.sample(range(n_cells), min(n_cells, rng.choice([1, 2, 3])))
+        progs = [[(L, rng.choice(few)) if rng.random() < 0.75 else (rng.randrange(3), rng.choice(nd.all_ids()))
+                  for _ in range(rng.randint(1, 4))] for _ in range(nt)]
+        s = [rng.randrange(nt) for _ in range(rng.randint(0, 80))]
+        yield mk_case(nd, data, progs, s, rng.random() < 0.6, rng.random() < 0.7, ["sampled", "typed", "lazy"], typed=True)
+
+
 def generate(rng, tier):
     quick = tier == "quick"
     docs = []
@@ -168,6 +222,17 @@ def generate(rng, tier):
         data = nd.build()
         for c in typed_cases(rng, nd, data, quick):
             yield c
+        for c in lazy_cases(rng, nd, data, quick):
+            yield c
+        # real threads, real SyncCache: many threads hammer one lazy cell (and a few others)
+        for _ in range(4 if quick else 40):
+            ci = rng.randrange(len(nd.cells))
+            progs = [[(nd.LAZY, ci) if rng.random() < 0.8 else (nd.LAZY, rng.randrange(len(nd.cells)))
+                      for _ in range(rng.randint(1, 4))] for _ in range(rng.choice([4, 6, 8] if not quick else [3, 4]))]
+            pf = "\n".join(" ".join("%d %d" % c for c in p) for p in progs).encode()
+            expect = ok(*[" ".join("%s%d" % nd.alone_item(ty, r) for (ty, r) in p).encode() for p in progs])
+            yield Case("tstress", [data, pf, b"20" if quick else b"300", str(nd.holder).encode()], expect=expect, model=False,
+                       tags=["stress", "typed", "lazy", "threads:%d" % len(progs)])
         for _ in range(3 if quick else 20):
             refs = [r for r in nd.all_ids() if nd.type_dependent(r)]
             progs = [[(rng.randrange(3), rng.choice(refs)) for _ in range(rng.randint(1, 6))] for _ in range(rng.choice([2, 3, 4]))]
